@@ -534,6 +534,19 @@ func configure(g *gen) {
 	}
 	add(FnSpec{Recv: "Context", Func: "Reset", Lean: "Ctx.Reset", Exts: resetExts})
 	add(FnSpec{Recv: "Context", Func: "Init", Lean: "Ctx.Init", Exts: resetExts})
+	// WriteBytes / WriteString: ONE Write on `c.Resp` (taken to be the context's own writer, as in AbortWithStatus), a
+	// panic exactly when that Write reports an error; the underlying writer's answer is an input.  Nothing of the
+	// request (its context.Context, its method) takes part.
+	wbExts := []Ext{
+		{Callee: "$.Resp.Write", Stmts: []string{"let %t := Gen.RW.Write $.writer %1 ext", "$ := { $ with writer := %t.1 }"},
+			Values: []string{"%t.2.1", "%t.2.2"}, Ts: []T{tInt, {"opaque", "Bool"}}},
+		{Callee: "panic(err)", Stmts: []string{"throw Panic.value"}, MayPanic: true},
+	}
+	add(FnSpec{Recv: "Context", Func: "WriteBytes", Lean: "Ctx.WriteBytes", Extra: []string{"(ext : Int × Bool)"}, Mutates: true,
+		Types: map[string]T{"error": {"opaque", "Bool"}}, Exts: wbExts})
+	add(FnSpec{Recv: "Context", Func: "WriteString", Lean: "Ctx.WriteString", Extra: []string{"(ext : Int × Bool)"}, Mutates: true,
+		Exts: []Ext{{Callee: "$.WriteBytes", Stmts: []string{"$ ← Gen.Ctx.WriteBytes $ %1 ext"}, MayPanic: true}}})
+	add(FnSpec{Recv: "Context", Func: "SetStatusCode", Lean: "Ctx.SetStatusCode"})
 	add(FnSpec{Recv: "Context", Func: "SetStatus", Lean: "Ctx.SetStatus"})
 	add(FnSpec{Recv: "Context", Func: "StatusCode", Lean: "Ctx.StatusCode"})
 	add(FnSpec{Recv: "Context", Func: "Length", Lean: "Ctx.Length"})
